@@ -519,7 +519,24 @@ impl Check for C11 {
                     // types spelled with Exclude are re-materialised from the semantic engine and inherit its listed
                     // findings (here typically `{}` absorbing the other object members of a union)
                     let plain: Vec<String> = if case.used.contains_key("exclude") { crate::csem::engine_family_sigs("c11_strict_membership", &case.env, d, Some(v)) } else { vec!["c11_strict_membership".to_string()] };
+                    // an intersection handed to the engine whole (Exclude) normally comes back merged; now and then the engine leaves
+                    // a conjunction of two object types standing (seen with an intersection that repeats a member), and the
+                    // per-member reading of strict mode applies to what was emitted.  Decided on the emitted validator (its
+                    // description shows an intersection of object types) and on the denotation (a repeated member), not assumed
+                    let mut engine_conjunction = false;
+                    if case.used.contains_key("exclude") && !unmerged && !g_strict {
+                        let repeated = crate::c02::reaches(&case.env, d, &mut |n| match n {
+                            D::Inter(ms) => ms.iter().enumerate().any(|(i, m)| ms[..i].contains(m)),
+                            _ => false,
+                        });
+                        if repeated {
+                            if let Ok(r) = node_case(ctx, Some(&code), vec![json!({"q":"describe","parser":name})]) {
+                                engine_conjunction = r["results"][0]["r"].as_str().map(|t| t.contains("} & {")).unwrap_or(false);
+                            }
+                        }
+                    }
                     let sigs: Vec<String> = match crate::c01::explain_with(ext_env.as_ref().unwrap_or(&case.env), d, v, Mode::Strict, g_strict, case.used.contains_key("exclude")) {
+                        Some("strict_inter_per_member") if engine_conjunction => vec!["strict_inter_per_member:engine_keeps_conjunction_with_repeated_member".to_string()],
                         Some("strict_inter_per_member") if !unmerged => plain,
                         Some(q) => vec![q.to_string()],
                         None => plain,
